@@ -1644,7 +1644,12 @@ void CppCheck::executeAddonsWholeProgram(const std::list<FileWithDetails> &files
         std::ofstream fout(fileName);
         fout << ctuInfo;
         fout.close();
-        executeAddons({std::move(fileName)}, "");
+        try {
+            executeAddons({std::move(fileName)}, "");
+        } catch (const std::runtime_error &e) {
+            // ill-typed addon output must not terminate the process
+            internalError("", std::string("Whole program analysis failed: ") + e.what());
+        }
         return;
     }
 
@@ -1659,7 +1664,12 @@ void CppCheck::executeAddonsWholeProgram(const std::list<FileWithDetails> &files
         ctuInfoFiles.push_back(getCtuInfoFileName(dumpFileName));
     }
 
-    executeAddons(ctuInfoFiles, "");
+    try {
+        executeAddons(ctuInfoFiles, "");
+    } catch (const std::runtime_error &e) {
+        // ill-typed addon output must not terminate the process
+        internalError("", std::string("Whole program analysis failed: ") + e.what());
+    }
 }
 
 void CppCheck::tooManyConfigsError(const std::string &file, const int numberOfConfigurations)
